@@ -159,6 +159,22 @@ func hasNulBody(o *Obs, tags string) bool {
 	return false
 }
 
+// hasAbsoluteOutput reports a world with an absolute output:file setting (spelled through the
+// real module root).
+func hasAbsoluteOutput(w *World) bool {
+	for _, c := range w.Files {
+		if strings.Contains(c, "output:file "+RootPlaceholder) {
+			return true
+		}
+	}
+	for _, gl := range w.Globals {
+		if strings.Contains(gl, RootPlaceholder) {
+			return true
+		}
+	}
+	return false
+}
+
 func firstDiff(a, b string) string {
 	la, lb := strings.Split(a, "\n"), strings.Split(b, "\n")
 	for i := 0; i < len(la) || i < len(lb); i++ {
@@ -239,6 +255,11 @@ func JudgeC09(c *Ctx, h *History, obs []*Obs) ([]Violation, error) {
 			// known finding F20: go/build refuses files with NUL bytes whatever their constraint
 			sfx = "/stale-output-with-nul-bytes"
 		}
+		if (g.Cwd == "symlink" || g.Cwd == "chdir-symlink" || g.Cwd == "symlink-rel" || g.Cwd == "dotdot-symlink") && hasAbsoluteOutput(h.World) {
+			// known finding F11 (reported by C15 under the same name): an absolute output:file
+			// spelled through another path than the symbolic link goverter works in
+			sfx = "/absolute-output-file-spelled-through-other-path-than-cwd"
+		}
 		c.Stats.Add("c09.compared_gens", 1)
 		if ref.Exit == 0 {
 			c.Stats.Add("c09.compared_ok", 1)
@@ -277,11 +298,11 @@ func JudgeC09(c *Ctx, h *History, obs []*Obs) ([]Violation, error) {
 			wc, wok := want[p]
 			switch {
 			case !gok:
-				out = append(out, Violation{Property: "C09", Class: "output-differs", OpIndex: o.OpIndex, Msg: "file " + p + " produced from a clean tree but not here"})
+				out = append(out, Violation{Property: "C09", Class: "output-differs" + sfx, OpIndex: o.OpIndex, Msg: "file " + p + " produced from a clean tree but not here"})
 			case !wok:
-				out = append(out, Violation{Property: "C09", Class: "output-differs", OpIndex: o.OpIndex, Msg: "file " + p + " produced here but not from a clean tree"})
+				out = append(out, Violation{Property: "C09", Class: "output-differs" + sfx, OpIndex: o.OpIndex, Msg: "file " + p + " produced here but not from a clean tree"})
 			case gc != wc:
-				out = append(out, Violation{Property: "C09", Class: "output-differs", OpIndex: o.OpIndex, Msg: "bytes of " + p + " differ from clean-tree reference: " + firstDiff(gc, wc)})
+				out = append(out, Violation{Property: "C09", Class: "output-differs" + sfx, OpIndex: o.OpIndex, Msg: "bytes of " + p + " differ from clean-tree reference: " + firstDiff(gc, wc)})
 			}
 			if len(out) > 0 {
 				break
